@@ -200,11 +200,28 @@ func oracleMode(args []string) {
 	rng := rand.New(rand.NewSource(*seed))
 	sum := newSummary("oracle-" + *prop)
 	distinct := map[string]bool{}
+	perShape := map[string]int{}
 	fail := func(c oracleCase, clause string, extra map[string]any) {
-		if len(sum.OracleFails) >= 40 {
+		// a few cases per shape (clause, first tag of the output and its attribute names), so that many instances of one
+		// failure do not crowd out a different one
+		out := c.gp.Sanitize(c.doc)
+		shape := clause
+		for _, t := range goTokens(out) {
+			if isTag(t) {
+				var ks []string
+				for _, a := range t.Attr {
+					ks = append(ks, a.Key)
+				}
+				sort.Strings(ks)
+				shape += "|" + t.Data + "|" + strings.Join(ks, ",")
+				break
+			}
+		}
+		if perShape[shape] >= 4 || len(sum.OracleFails) >= 160 {
 			return
 		}
-		m := map[string]any{"kind": "property-oracle", "clause": clause, "input_hex": hexOf(c.doc), "input_text": c.doc, "policy": c.ps, "output": c.gp.Sanitize(c.doc)}
+		perShape[shape]++
+		m := map[string]any{"kind": "property-oracle", "clause": clause, "input_hex": hexOf(c.doc), "input_text": c.doc, "policy": c.ps, "output": out}
 		for k, v := range extra {
 			m[k] = v
 		}
